@@ -87,6 +87,37 @@ pub fn programs(tier: Tier) -> ProgramSet {
         d.kind = Kind::Tuple(vec![FieldTy::Str]);
         let mut s5 = s3.clone();
         s5.variants.push(d);
+        // a DISABLED (or default) case-insensitive variant claims nothing: a later exact spelling that equals its name ignoring
+        // case is answered by the map as by the match
+        let mut s6 = EnumSpec::base(3);
+        s6.variants[0].disabled = true;
+        s6.variants[0].aci = Some(Aci::Bare);
+        s6.variants[1].serialize = vec!["kk".into()];
+        let mut s7 = EnumSpec::base(3);
+        let mut d7 = VariantSpec::unit("Dd");
+        d7.default = true;
+        d7.aci = Some(Aci::Bare);
+        d7.kind = Kind::Tuple(vec![FieldTy::Str]);
+        s7.variants.insert(0, d7);
+        s7.variants[1].serialize = vec!["dd".into()];
+        let mut s8 = s6.clone();
+        s8.aci = true;
+        s8.variants[0].aci = None;
+        s8.variants[1].aci = Some(Aci::False);
+        for nm in ["Map", "PHF", "Value", "Option", "S"] {
+            let mut sn = EnumSpec::base(3);
+            sn.aci = nm == "PHF";
+            sn.syntax.push(format!("phf-twin-named:{}", nm));
+            let source = render(&sn);
+            out.push(Program { idx: 0, label: format!("B3 + the use_phf enum is called `{}`", nm), k: 1, spec: sn, aux: json!(null), source });
+        }
+        for (sp, lab) in [(s6, "v0: disabled + ascii_case_insensitive, v1.serialize=\"kk\""), (s7, "default variant first with ascii_case_insensitive, v1.serialize=\"dd\""), (s8, "enum-level ascii_case_insensitive + v0.disabled + v1.serialize=\"kk\" (= false)")] {
+            if domain(&sp) {
+                let source = render(&sp);
+                let aux = overlap_aux(&sp);
+                out.push(Program { idx: 0, label: format!("B3 + {}", lab), k: 3, spec: sp, aux, source });
+            }
+        }
         for (sp, lab) in [(s1, "enum-level ascii_case_insensitive + v0.serialize=\"XY\" + v2.serialize=\"Xy\" (= false)"), (s2, "enum-level ascii_case_insensitive + v0.serialize=\"XY\" + v2.serialize=\"Xy\" + snake_case"), (s3, "context: scope re-binds Ok / Err / Some / None"), (s4, "context: hostile scope + enum-level ascii_case_insensitive"), (s5, "context: hostile scope + default variant")] {
             if domain(&sp) {
                 let source = render(&sp);
@@ -116,6 +147,15 @@ pub fn render(spec: &EnumSpec) -> String {
     let mut p = spec.clone();
     p.name = "P".into();
     p.use_phf = true;
+    // the phf twin may carry a name that the generated lookup code itself uses for something else
+    let twin_name: Option<String> = spec.syntax.iter().find_map(|x| x.strip_prefix("phf-twin-named:").map(|n| n.to_string()));
+    p.syntax.retain(|x| !x.starts_with("phf-twin-named:"));
+    let mut e_spec = spec.clone();
+    e_spec.syntax.retain(|x| !x.starts_with("phf-twin-named:"));
+    let spec = &e_spec;
+    if let Some(n) = &twin_name {
+        p.name = n.clone();
+    }
     if spec.syntax.iter().any(|x| x == "hostile-scope") {
         // both enums live in a module whose scope re-binds the prelude's Ok / Err / Some / None (the plain derive
         // compiles there, so the phf one has to as well)
@@ -126,6 +166,10 @@ pub fn render(spec: &EnumSpec) -> String {
     } else {
         o.push_str(&render_enum(spec, &derives));
         o.push_str(&render_enum(&p, &derives));
+        if let Some(n) = &twin_name {
+            o.push_str(&format!("pub type P = {};\n", n));
+            p.name = "P".into();
+        }
     }
     o.push_str(&render_vidx(spec, "E", "vidx_e"));
     o.push_str(&render_vidx(&p, "P", "vidx_p"));
